@@ -6,8 +6,9 @@ From C17 Require Import Sem Progs Static Annot Owner Effects Conserve.
 
 Definition inl (x : nat) (l : list nat) : bool := existsb (Nat.eqb x) l.
 
+
 Definition wkok (st0 : status) (p0 : nat) : Prop :=
-  match st0 with Asleep _ _ | Woken _ => (p0 <=? 12) = true | _ => True end.
+  match st0 with Asleep _ _ | Woken _ => inl p0 [4;11] = true | _ => True end.
 
 Definition PL (s : state) : Prop :=
   exists p0 st0 r0 c0 l0,
@@ -146,11 +147,10 @@ Proof.
   - (* Woken *)
     destruct (negb (live s m)); [inversion E; subst s'; eapply REST; [cbn; rewrite H0; reflexivity|exact Hsub|exact Hs0|exact Hc|exact Hwk]|].
     destruct (own s m); [discriminate|]. inversion E; subst s'.
-    cbn in Hwk.
-    eapply REST; [cbn; unfold upd; cbn; reflexivity|exact Hsub| | |exact I]; cbn.
-    + intros _. apply Hs0. apply Nat.leb_le in Hwk. apply Nat.leb_le. lia.
-    + intros X. exfalso. apply Nat.leb_le in Hwk. revert X.
-      do 13 (destruct p0 as [|p0]; [discriminate|]). lia.
+    cbn in Hwk. unfold inl in Hwk. cbn in Hwk. rewrite !orb_true_iff, !Nat.eqb_eq in Hwk.
+    destruct Hwk as [->|[->|X]]; [ | |discriminate X];
+      (eapply REST; [cbn; unfold upd; cbn; reflexivity|exact Hsub| | |exact I]; cbn;
+       [intros _; apply Hs0; reflexivity | intros X; discriminate X]).
 Qed.
 
 Theorem PL_step s l s' : PL s -> exec P s l = Some s' -> PL s'.
